@@ -47,6 +47,9 @@ def scenarios():
         "valid-xsd": ({"item.xsd": VALID_XSD}, "item.xsd", True, None),
         "valid-wsdl-with-sibling-import": ({"pay.wsdl": wsdl(), "shared.xsd": TYPES_XSD, "zz_unused.xsd": VALID_XSD}, "pay.wsdl", True, None),
         "valid-xsd-odd-extension": ({"schema.v1.xml": VALID_XSD}, "schema.v1.xml", True, None),
+        "valid-xsd-uppercase-extension": ({"ITEM.XSD": VALID_XSD}, "ITEM.XSD", True, None),
+        "valid-wsdl-double-extension": ({"pay.wsdl.bak": wsdl(), "shared.xsd": TYPES_XSD}, "pay.wsdl.bak", True, None),
+        "valid-xsd-no-extension": ({"schema": VALID_XSD}, "schema", True, None),
         "missing-file": ({"other.xsd": VALID_XSD}, "nope.xsd", False, "locate-input"),
         "directory-as-input": ({"adir/inner.xsd": VALID_XSD}, "adir", False, "locate-input"),
         "imported-sibling-not-utf8": ({"pay.wsdl": wsdl(), "shared.xsd": b"\xff\xfe\x00<xs:schema/>"}, "pay.wsdl", False, "read-siblings"),
@@ -112,7 +115,7 @@ def c17(tier):
                     for pre in ("absent", "shorter", "longer"):
                         case += 1
                         base = os.path.join(root, f"case{case}")
-                        indir = os.path.join(base, "proj", "in")
+                        indir = os.path.join(base, "proj", "in.d")      # a dot in a directory name must not matter
                         sib = os.path.join(base, "proj", "sib")
                         elsewhere = os.path.join(base, "elsewhere")
                         for d in (indir, sib, elsewhere):
@@ -125,13 +128,13 @@ def c17(tier):
                         if spelling == "absolute":
                             cwd, arg = elsewhere, in_abs
                         elif spelling == "relative-with-dir":
-                            cwd, arg = os.path.join(base, "proj"), os.path.join("in", inp)
+                            cwd, arg = os.path.join(base, "proj"), os.path.join("in.d", inp)
                         elif spelling == "dot-slash":
                             cwd, arg = indir, "./" + inp
                         elif spelling == "bare-name":
                             cwd, arg = indir, inp
                         else:
-                            cwd, arg = sib, os.path.join("..", "in", inp)
+                            cwd, arg = sib, os.path.join("..", "in.d", inp)
                         stem = os.path.splitext(in_abs)[0]
                         if out_mode == "explicit":
                             out_abs = os.path.join(base, "out", "gen.rs")
@@ -197,7 +200,7 @@ def c17(tier):
     cov = {
         "evaluations": runs,
         "distinct_nontrivial": len(cells),
-        "rule": "full matrix: 11 input scenarios (3 succeed; 8 fail at the stages locate-input, read-siblings, parse, import, resolve, "
+        "rule": "full matrix: 14 input scenarios (6 succeed, among them upper-case, double and missing file extensions; 8 fail at the stages locate-input, read-siblings, parse, import, resolve, "
                 "binding) x 5 path spellings/working directories (absolute from an unrelated cwd, dir/name from the parent, ./name and bare "
                 "name from the input directory, ../in/name from a sibling directory) x output {--output absolute, --output relative to cwd, "
                 "default} x pre-existing output {absent, shorter, longer}. Every cell is one run of the built binary in a fresh scratch tree; "
